@@ -1,5 +1,144 @@
-import TransportVerif.Model.Addressing
-import TransportVerif.Spec.Addressing
+import TransportVerif.Link.Addressing
+import TransportVerif.Proofs.Addressing
+/-
+C13 — vnet never hands out an IP or socket address that is already in use.
+The statements below are FIXED; only the proofs may change.
+-/
 namespace TV.Props.C13
-theorem placeholder : True := trivial
+open TV TV.Addressing TV.AddressingLink TV.AddressingSpec
+open TV.Proofs.Addressing
+
+/-! ### router -/
+
+/-- an automatically assigned address is never one that a NIC on the router already holds, and it
+    lies inside the subnet — from ANY router state -/
+theorem auto_never_taken (r : Router) (ip : Nat) (h : (r.addNIC []).2 = .ok [ip]) :
+    ip ∉ r.nics ∧ r.contains ip = true :=
+  auto_never_taken' r ip h
+
+/-- every address registered for a NIC lies inside the subnet (otherwise an error is reported) -/
+theorem assigned_in_subnet (r : Router) (st ips : List Nat) (h : (r.addNIC st).2 = .ok ips) :
+    ∀ ip ∈ ips, r.contains ip = true :=
+  assigned_in_subnet' r st ips h
+
+/-- along any history of attachments (static lists and automatic ones in any order, any number of
+    NICs) in which the user never supplies an address already held, no address is ever handed out twice -/
+theorem no_address_twice (netIP bits : Nat) (hist : List (List Nat))
+    (h : StaticsFresh (Router.new netIP bits) hist) : (assigned (Router.new netIP bits) hist).Nodup :=
+  (assigned_nodup hist _ h).1
+
+/-- exhaustion is reported only when every address of the automatic pool (host byte 1..254) is
+    held or lies outside the subnet — addresses are never reused instead -/
+theorem exhaustion_is_real (netIP bits : Nat) (hist : List (List Nat))
+    (h : ((runRouter (Router.new netIP bits) hist).addNIC []).2 = .exhausted) :
+    (absRouter (runRouter (Router.new netIP bits) hist)).exhaustedOk = true :=
+  exhaustion_is_real' netIP bits hist h
+
+/-! ### host socket table -/
+
+/-- in every reachable host state no two open sockets conflict (same port and same IP, or a
+    wildcard sharing its port with anything) -/
+theorem open_sockets_never_conflict (r : HostRun) (hr : ReachHost r) :
+    (absHost r.h).open_.Pairwise (fun a b => conflict a b = false) :=
+  open_sockets_never_conflict' (reach_hwf hr)
+
+/-- binding with an explicit port succeeds exactly when the IP belongs to the host (or is the
+    wildcard) and no open socket covers the address; the socket is then open.
+
+    THE ORIGINAL STATEMENT IS FALSE (kept verbatim here, refuted below), for two reasons:
+    1. a host without any address refuses the wildcard bind (`hasIP 0 = !ips.isEmpty`), while the
+       spec's `owns 0` is always true: `Host.new []`, `bind 0 80 0` gives `.cantAssign` although
+       `bindOk 0 80 = true`;
+    2. `pmSet` moves the entry of the port to the end of `portMap`, so the open list afterwards is
+       a permutation of `open_ ++ [new]`, not equal to it: on `Host.new [1,2]` after
+       `bind 1 80`, `bind 1 81` the bind `2 80` gives `[1:81, 1:80, 2:80]`, not `[1:80, 1:81, 2:80]`. -/
+def bind_succeeds_iff_statement : Prop :=
+  ∀ (r : HostRun) (_hr : ReachHost r) (ip port off : Nat) (_hp : port ≠ 0),
+    ((∃ s, (r.h.bind ip port off).2 = .ok s) ↔ (absHost r.h).bindOk ip port = true) ∧
+    (∀ s, (r.h.bind ip port off).2 = .ok s → s.ip = ip ∧ s.port = port ∧
+       (absHost (r.h.bind ip port off).1).open_ = (absHost r.h).open_ ++ [{ ip := ip, port := port }])
+
+/-- counterexample 1 (host without addresses, wildcard bind) -/
+theorem bind_succeeds_iff_statement_false_noaddr : ¬ bind_succeeds_iff_statement := by
+  intro hst
+  have h := (hst { h := Host.new [], created := [] } ⟨[], [], rfl⟩ 0 80 0 (by decide)).1
+  have hb : (absHost (Host.new [])).bindOk 0 80 = true := by decide
+  obtain ⟨s, hs⟩ := h.mpr hb
+  have hc : (Host.bind (Host.new []) 0 80 0).2 = .cantAssign := by decide
+  rw [show (({ h := Host.new [], created := [] } : HostRun).h.bind 0 80 0).2 = .cantAssign from hc] at hs
+  cases hs
+
+/-- counterexample 2 (order of the open list), on a host that has addresses -/
+theorem bind_succeeds_iff_statement_false_order : ¬ bind_succeeds_iff_statement := by
+  intro hst
+  have h := (hst (({ h := Host.new [1, 2], created := [] } : HostRun).run [.bind 1 80 0, .bind 1 81 0])
+    ⟨[1, 2], _, rfl⟩ 2 80 0 (by decide)).2 { id := 2, ip := 2, port := 80 } (by decide)
+  revert h
+  decide
+
+/-- The closest true variant. CHANGES with respect to `bind_succeeds_iff_statement`:
+    * ADDED HYPOTHESIS `hne : ip = 0 → r.h.ips ≠ []` (a wildcard bind needs a host that has at
+      least one address; see counterexample 1);
+    * the final list equality `=` is weakened to `List.Perm` (see counterexample 2). -/
+theorem bind_succeeds_iff (r : HostRun) (hr : ReachHost r) (ip port off : Nat) (hp : port ≠ 0)
+    (hne : ip = 0 → r.h.ips ≠ []) /- ADDED hypothesis -/ :
+    ((∃ s, (r.h.bind ip port off).2 = .ok s) ↔ (absHost r.h).bindOk ip port = true) ∧
+    (∀ s, (r.h.bind ip port off).2 = .ok s → s.ip = ip ∧ s.port = port ∧
+       ((absHost (r.h.bind ip port off).1).open_).Perm /- was `=` -/
+         ((absHost r.h).open_ ++ [{ ip := ip, port := port }])) :=
+  bind_succeeds_iff' (reach_hwf hr) ip port off hp hne
+
+/-- port 0: for every random offset, the chosen port lies in 5000..5999 and is free for this IP;
+    the search fails exactly when no port of the range is free -/
+theorem ephemeral_in_range_and_free (r : HostRun) (hr : ReachHost r) (ip off : Nat)
+    (hown : (absHost r.h).owns ip = true) (hh : ip = 0 ∨ ip ∈ r.h.ips) :
+    (∀ s, (r.h.bind ip 0 off).2 = .ok s → s.ip = ip ∧ s.port ∈ (absHost r.h).freePorts ip) ∧
+    ((r.h.bind ip 0 off).2 = .exhausted ↔ (absHost r.h).freePorts ip = []) := by
+  have _ := hown   -- implied by `hh`; not needed
+  exact ephemeral' (reach_hwf hr) ip off hh
+
+/-- a bind to an address the host does not own is refused -/
+theorem foreign_ip_refused (h : Host) (ip port off : Nat) (hne : ip ≠ 0) (hno : ip ∉ h.ips) :
+    (h.bind ip port off).2 = .cantAssign := by
+  have : h.hasIP ip = false := by simp [Host.hasIP, hne, hno]
+  simp [Host.bind, this]
+
+/-- closing an open socket frees exactly its address.
+
+    THE ORIGINAL STATEMENT IS FALSE (kept verbatim here, refuted below): when other sockets stay on
+    the port, `pmSet` moves the entry of the port to the end of `portMap`, so the open list
+    afterwards is a permutation of the erased list, not equal to it. On `Host.new [1,2]` after
+    `bind 1 80`, `bind 2 80`, `bind 1 81`, closing `1:80` gives `[1:81, 2:80]`, while
+    `erase` gives `[2:80, 1:81]`. -/
+def close_frees_statement : Prop :=
+  ∀ (r : HostRun) (_hr : ReachHost r) (s : Sock) (_hs : s ∈ openSocks r.h) (_hc : s.id ∉ r.h.closed),
+    (absHost (r.h.close s)).open_ = (absHost r.h).open_.erase { ip := s.ip, port := s.port }
+
+theorem close_frees_statement_false : ¬ close_frees_statement := by
+  intro hst
+  have h := hst (({ h := Host.new [1, 2], created := [] } : HostRun).run
+      [.bind 1 80 0, .bind 2 80 0, .bind 1 81 0])
+    ⟨[1, 2], _, rfl⟩ { id := 0, ip := 1, port := 80 } (by decide) (by decide)
+  revert h
+  decide
+
+/-- The closest true variant. CHANGE with respect to `close_frees_statement`: the list equality `=`
+    is weakened to `List.Perm`; no hypothesis was added. -/
+theorem close_frees (r : HostRun) (hr : ReachHost r) (s : Sock) (hs : s ∈ openSocks r.h)
+    (hc : s.id ∉ r.h.closed) :
+    ((absHost (r.h.close s)).open_).Perm /- was `=` -/
+      ((absHost r.h).open_.erase { ip := s.ip, port := s.port }) :=
+  close_frees' (reach_hwf hr) s hs hc
+
+/-- an inbound datagram for `ip:port` (ip ≠ 0) is handed to the open socket that covers it, and
+    to none when no socket covers it -/
+theorem find_returns_the_covering_socket (r : HostRun) (hr : ReachHost r) (ip port : Nat) (hip : ip ≠ 0) :
+    (absHost r.h).covering ip port = ((r.h.find ip port).map (fun s => ({ ip := s.ip, port := s.port } : SockS))).toList :=
+  find_returns_the_covering_socket' (reach_hwf hr) ip port hip
+
+-- non-vacuity: the pinned tree's failing history (static .1, then automatic) now yields .2
+example : assigned (Router.new 0x0A000000 24) [[0x0A000001], []] = [0x0A000001, 0x0A000002] := by decide
+example : StaticsFresh (Router.new 0x0A000000 24) [[0x0A000001], []] := by
+  simp [StaticsFresh, Router.new]
+
 end TV.Props.C13
